@@ -202,13 +202,17 @@ def run(chk):
                    "ladder_total / status_order_matches_source / exit_rule_matches_source (decide over tables regenerated "
                    "from the source)"]
     chk.partial += ["interpreter-level failures (MemoryError, sys.exit inside handlers) are outside the model",
-                    "the stateful phase's consumer loop has the same race (same repair) but is only exercised by runs"]
+                    "the stateful phase: suite loop and consumer are modelled as functions (SV/Model/Stateful.lean) and driven against the real code; its queue race is the unit phase's (same repair) and is not re-proved as an LTS"]
     if variant == "asFound":
         chk.violation(KF_RACE, "events put by a worker between the consumer's queue.Empty and its liveness test are lost: "
                       "the phase is closed as 'nothing to test' with exit code 0", probe)
     for _ in E.consumer_correspondence(chk, variant, chk.budget(250, 3000)):
         pass
     for _ in E.worker_correspondence(chk, chk.budget(120, 1500)):
+        pass
+    for _ in E.stateful_thread_correspondence(chk, chk.budget(80, 1000)):
+        pass
+    for _ in E.stateful_consumer_correspondence(chk, chk.budget(25, 300)):
         pass
     ladder_runs(chk)
     fault_runs(chk, chk.budget(2, 12))
